@@ -14,6 +14,7 @@ NoFix == {}
 CodeFix == {"stale"}   \* repaired in the code (fix: commits)
 AllFix == {"inflight", "recheck", "stale", "blockinv"}
 FixNoInv == {"inflight", "recheck", "stale"}
+FixNoInvNoStale == {"inflight", "recheck"}
 Unb == 0 - 1
 View == <<ptip, tipc, pann, sendhdrs, net, out, chain, startH, req, toReq, lastSaved, infl, inSync,
           pendSync, hdrReq, hsDone, notified, badNotify, restarts, prs, dups, advs, unts>>
